@@ -2,7 +2,7 @@
    parts; pattern choice and slider geometry are exercised by the direct oracle only — partial). *)
 From Coq Require Import ZArith List Bool Floats Reals.
 From Flocq Require Import Core.
-From V Require Import Tables F64 F32 FExact FInt FDy Decode DecodeProofs ManiaCols ManiaColsProofs Prng PrngProofs NextMaxProofs TaikoSplit TaikoSplitProofs.
+From V Require Import Tables F64 F32 FExact FInt FDy Decode DecodeProofs ManiaCols ManiaColsProofs Prng PrngProofs NextMaxProofs CRngProofs TaikoSplit TaikoSplitProofs.
 Import ListNotations.
 Open Scope Z_scope.
 
@@ -125,3 +125,25 @@ Theorem C19_next_max_in_range : forall r max : Z, 0 <= r < 2147483647 -> 1 <= ma
   0 <= to_i32 ((of_Z r * INV_I32_MAX) * of_Z max)%float < max.
 Proof. exact next_max_range. Qed.
 Print Assumptions C19_next_max_in_range.
+
+(* the .NET generator as a state machine: table entries within [-1, i32::MAX) is an invariant of
+   `internal_sample`, under it the i32 subtraction cannot overflow and every raw sample lies in
+   [0, i32::MAX) - so the hypothesis of C19_next_max_in_range is met after ANY sequence of calls:
+   plain samples within [0, i32::MAX), next_max(max) within [0, max) *)
+Theorem C19_csharp_sample_invariant : forall s, CInv s ->
+  0 <= fst (csample_int s) < I32_MAX /\ CInv (snd (csample_int s)).
+Proof. exact csample_int_range. Qed.
+Print Assumptions C19_csharp_sample_invariant.
+Theorem C19_csharp_run_in_range : forall ops s, CInv s -> Forall cop_ok ops -> Forall2 cout_ok ops (crun s ops).
+Proof. exact crun_range. Qed.
+Print Assumptions C19_csharp_run_in_range.
+(* seeding, every 32-bit seed: the table entries end within the CLOSED range [-1, i32::MAX].  The
+   strict bound needed by the invariant above is NOT implied by the seeding arithmetic (a wrapped
+   difference may equal i32::MAX exactly); it is established per seed by evaluation (cinvb, sound by
+   cinvb_sound; Example cinv_some_seeds) - partial for the universal claim over seeds. *)
+Theorem C19_csharp_seed_entries_partial : forall seed, - M31 <= seed < M31 -> Forall P3 (carr (cnew seed)).
+Proof. exact cnew_weak_inv. Qed.
+Print Assumptions C19_csharp_seed_entries_partial.
+Theorem C19_csharp_invariant_decidable : forall s, cinvb s = true -> CInv s.
+Proof. exact cinvb_sound. Qed.
+Print Assumptions C19_csharp_invariant_decidable.
